@@ -250,6 +250,7 @@ def sum_mll(S, n1, n2):
             _fill_table(S, table, Gs, Gc, lk, x, x.shape[0], ())
         out = ml(*ml.train_inputs)
         val = smll(out, ml.train_targets)
+        val_p = smll(out, ml.train_targets, *ml.train_inputs)  # with per-member likelihood arguments: the same quantity
         members = [gpytorch.mlls.ExactMarginalLogLikelihood(lk, m)(m(*m.train_inputs), m.train_targets) for m, lk in zip(models, liks)]
         # IndependentModelList returns exactly its members' outputs
         for k, (o, m) in enumerate(zip(out, models)):
@@ -258,6 +259,7 @@ def sum_mll(S, n1, n2):
             S.prove_eq(o.covariance_matrix, as_sym_arr(SH.get(o2.covariance_matrix)), "model_list output %d cov" % k)
     mem = [as_sym_arr(SH.get(v)).reshape(-1)[0] for v in members]
     S.prove_eq(val, (mem[0] + mem[1]) * Sym.const(0.5), "sum_mll = mean of members")
+    S.prove_eq(val_p, (mem[0] + mem[1]) * Sym.const(0.5), "sum_mll called with per-member params = mean of members")
     # and each member equals its dense definition
     for k, (m, (Gs, Gc)) in enumerate(zip(models, facs)):
         n = Gs.shape[0]
